@@ -17,6 +17,7 @@ import (
 	"github.com/boz/kcache/nsname"
 	corev1 "k8s.io/api/core/v1"
 	metav1 "k8s.io/apimachinery/pkg/apis/meta/v1"
+	"k8s.io/apimachinery/pkg/labels"
 )
 
 // ---------------------------------------------------------------- universe
@@ -36,19 +37,48 @@ var nsKey = func() map[[2]string]string {
 	return m
 }()
 
+// Resource versions are 64-bit on the wire but TLC integers are 32-bit: real versions in a window around 2^31 and
+// around 2^32 are mapped order-preservingly to model versions 200000.. and 300000.. (ordinary ones stay as they are).
+const (
+	bigBase1  = int64(1)<<31 - 1000
+	bigBase2  = int64(1)<<32 - 1000
+	bigModel1 = 200000
+	bigModel2 = 300000
+)
+
+func realToModel(n int64) int {
+	switch {
+	case n >= bigBase2:
+		return bigModel2 + int(n-bigBase2)
+	case n >= bigBase1:
+		return bigModel1 + int(n-bigBase1)
+	}
+	return int(n)
+}
+
+func modelToReal(v int) int64 {
+	switch {
+	case v >= bigModel2:
+		return bigBase2 + int64(v-bigModel2)
+	case v >= bigModel1:
+		return bigBase1 + int64(v-bigModel1)
+	}
+	return int64(v)
+}
+
 func verString(v int) string {
 	if v == NN {
 		return "x7"
 	}
-	return strconv.Itoa(v)
+	return strconv.FormatInt(modelToReal(v), 10)
 }
 
 func verModel(s string) int {
-	n, err := strconv.Atoi(s)
+	n, err := strconv.ParseInt(s, 10, 64)
 	if err != nil {
 		return NN
 	}
-	return n
+	return realToModel(n)
 }
 
 // mkPod builds the real object for model object (k, v, l).
@@ -110,6 +140,10 @@ func mkFilter(name string) filter.Filter {
 		return filter.NSName(nsname.New("ns1", ""))
 	case "nsp2":
 		return filter.NSName(nsname.New("ns2", ""))
+	case "sel0":
+		return filter.LabelSelector(nil)
+	case "selall":
+		return filter.Selector(labels.NewSelector())
 	case "anx0":
 		return filter.And(filter.Null(), filter.FN(func(o metav1.Object) bool { return o.GetLabels()["x"] == "0" }))
 	case "anx1":
